@@ -1198,6 +1198,11 @@ class t2grid(object):
                     if orignames in self.connection:
                         con = self.connection[orignames]
                         con.block = con.block[::-1]
+                        # per-block data follows its block, and the gravity
+                        # cosine refers to the first -> second orientation:
+                        con.distance = con.distance[::-1]
+                        con.nad1, con.nad2 = con.nad2, con.nad1
+                        if con.dircos: con.dircos = -con.dircos
                         for blk in con.block:
                             blk.connection_name.remove(orignames)
                             blk.connection_name.add(names)
